@@ -279,7 +279,12 @@ def must_reject(fmt, text, label, via_file=False):
         else:
             obj.loads(text)
     except Exception:  # noqa  ("rejected with an exception": the type is not constrained)
-        return
+        # a caller's retry (the same object, the same document) is answered the same way: a refusal teaches the object nothing
+        try:
+            obj.loads(text)
+        except Exception:  # noqa
+            return
+        raise Violation("corrupted-document-loaded-on-retry", "%s document with %s was refused, and then accepted when the same object was asked again" % (fmt, label))
     raise Violation("corrupted-document-loaded", "%s document with %s was returned as a successfully loaded object" % (fmt, label))
 
 
